@@ -60,6 +60,10 @@ def lower_bound(t):
     return None
 
 
+# attributes plain functions have and other callables (functools.partial, callable instances, builtins, bound methods of C types) may lack
+FN_OPTIONAL_ATTRS = ('__name__', '__qualname__', '__code__', '__defaults__', '__kwdefaults__', '__globals__', '__closure__', '__annotations__', '__wrapped__', 'func', 'args', 'keywords')
+
+
 class WrapperModel(Model):
     """events for one decorator class.  facts:
        archived/purge: None|True|False (stable predicates)
@@ -181,6 +185,26 @@ class WrapperModel(Model):
     def call(self, f, args, kws, st, node):
         line = getattr(node, 'lineno', 0)
         ln = libname(f)
+        # --- lock operations
+        if f[0] == 'attr' and self.is_lock(f[1]) and f[2] in ('acquire', 'release'):
+            if f[2] == 'release':
+                tok = self._lock_count(f[1], st, -1, line)
+                return [R(st, None, tok, line)] if tok else [R(st, NONE)]
+            nonblocking = (args and args[0] == C(False)) or any(k[0] == 'kw' and k[1] == 'blocking' and k[2] == C(False) for k in kws) \
+                or any(k[0] == 'kw' and k[1] == 'timeout' for k in kws) or len(args) > 1
+            outs = []
+            if nonblocking:
+                s2 = st.fork()
+                s2.emit('LOCKBUSY', (f[1],), line)
+                outs.append(R(s2, C(False)))
+            self._lock_count(f[1], st, +1, line)
+            outs.append(R(st, C(True)))
+            return outs
+        # --- library calls that can raise whatever the arguments are: warnings.warn under an "error" filter
+        if f[0] == 'lib' and f[1] in ('warnings.warn', 'warnings.warn_explicit'):
+            s2 = st.fork()
+            s2.emit('LIBRAISE', (C(f[1]),), line)
+            return [R(s2, None, GENERIC, line), R(st, NONE)]
         # --- user function
         if f == FN:
             n = self.newid()
@@ -591,6 +615,37 @@ class WrapperModel(Model):
             return [R(st, ('bound', ARCHIVE, attr))]
         if is_bk(obj):
             return [R(st, ('bound', obj, attr))]
+        if obj == FN and attr in FN_OPTIONAL_ATTRS:
+            # the decorated callable may be a functools.partial, a callable instance, a builtin: these attributes are not there for all of them
+            line = getattr(node, 'lineno', 0)
+            s2 = st.fork()
+            s2.emit('FNATTRERR', (C(attr),), line)
+            return [R(s2, None, 'AttributeError', line), R(st, ('attr', FN, attr))]
+        return None
+
+    # -- locks (threading.Lock / RLock created in __call__): typestate "held count" along the path ----------------
+    @staticmethod
+    def is_lock(v):
+        return isinstance(v, tuple) and len(v) > 2 and v[0] == 'call' and v[1][0] == 'lib' and v[1][1].split('.')[-1] in ('RLock', 'Lock') and not v[2]
+
+    def _lock_count(self, v, st, delta, line):
+        locks = dict(st.facts.get('locks', {}))
+        n = locks.get(v, 0) + delta
+        if n < 0:
+            st.emit('LOCKERR', (v,), line)
+            return 'RuntimeError'
+        locks[v] = n
+        st.facts['locks'] = locks
+        st.emit('LOCK', (v, C(delta)), line)
+        return None
+
+    def with_enter(self, val, st, node):
+        if self.is_lock(val):
+            self._lock_count(val, st, +1, getattr(node, 'lineno', 0))
+
+    def with_exit(self, val, st, node):
+        if self.is_lock(val):
+            return self._lock_count(val, st, -1, getattr(node, 'lineno', 0))
         return None
 
     def attr_store(self, obj, attr, val, st, node):
